@@ -58,7 +58,26 @@ EXTRA = {
             ("SafeC.Sort.bsearchLoop_any", "SafeC.Proofs.Bsearch", "lemma", "halving loop under an arbitrary comparator: returns, probes inside the window, at most steps(m) probes"),
             ("SafeC.Sort.siftLoop_safe", "SafeC.Proofs.SortSafe", "lemma", "loop invariant of sift: the walk stays inside the Leonardo tree (positions < n, no pointer below base, ar[] not overrun), any comparator"),
             ("SafeC.Sort.cycleGo_tot", "SafeC.Proofs.SortSafe", "lemma", "the element moves of cycle() on in-range positions never fault"),
-            ("SafeC.Sort.steps_bound", "SafeC.Proofs.Bsearch", "lemma", "steps(m) <= ceil(log2 m) + 1, in the form 2^(steps m - 1) <= 2(m-1) for m >= 2")],
+            ("SafeC.Sort.steps_bound", "SafeC.Proofs.Bsearch", "lemma", "steps(m) <= ceil(log2 m) + 1, in the form 2^(steps m - 1) <= 2(m-1) for m >= 2"),
+            ("SafeC.Sort.shl_bit", "SafeC.Proofs.SortBits", "lemma", "shl(p, n) on the two-word vector with x86 shift-count masking, 0 < n < 128: bit i of the result = bit i-n of p (bit-level spec; shr_bit, or1_bit, xor7_bit, and3_iff alike)"),
+            ("SafeC.Sort.pntz_spec64", "SafeC.Proofs.SortBits", "lemma", "repaired pntz = distance from bit 0 to the next set bit of the 128-bit vector, unless that distance is exactly 64 (pntz_at64: answers 0)"),
+            ("SafeC.Sort.pntz_spec32", "SafeC.Proofs.SortBits", "lemma", "pntz with the int builtin (tzcnt on 32 bits) is right as long as the next set bit is at most 32 away"),
+            ("SafeC.Sort.mkLp_spec", "SafeC.Proofs.SortLp", "lemma", "the lp[] generation loop: no overflow of the 96 entries, no 64-bit wrap, table = Leonardo numbers up to the first one >= nmemb"),
+            ("SafeC.Sort.Forest.next", "SafeC.Proofs.SortShape", "lemma", "forest invariant: pntz is the distance to the next tree order, shr drops the smallest tree, the stepson head - lp[pshift] is the next root"),
+            ("SafeC.Sort.trinkle_safe", "SafeC.Proofs.SortShape", "lemma", "trinkle on a forest inside the array returns with every position < n, any comparator, ar[] not overrun (at most one entry per tree)"),
+            ("SafeC.Sort.mainStep_safe", "SafeC.Proofs.SortShape", "lemma", "one round of the main loop preserves the forest-shape invariant (merge of two adjacent trees / new tree of order 1 / order 0)"),
+            ("SafeC.Sort.dismantleStep_safe", "SafeC.Proofs.SortShape", "lemma", "one round of the dismantling loop preserves the shape (drop a one-element tree / split the smallest tree, both trinkle calls on valid forests), head >= 1"),
+            ("SafeC.Sort.smooth_safe", "SafeC.Proofs.SortShape", "lemma", "whole smoothsort on n elements returns with the size kept: Shape.init, mainLoop_safe, trinkle_safe, dismantle_safe (ends exactly at head = 0)"),
+            ("SafeC.Sort.qsortMusl_safe", "SafeC.Proofs.SortWhole", "lemma", "qsort_musl with the table it builds itself and the real pntz, nmemb up to leo 65 (repaired) / leo 34 (int builtin)"),
+            ("SafeC.Sort.sift_spec", "SafeC.Proofs.SortSift", "lemma", "sift restores the heap order of one Leonardo tree given both subtrees are heaps (consistent comparator); touches only the tree; the new root dominates the old tree"),
+            ("SafeC.Sort.cycle_fn", "SafeC.Proofs.SortSift", "lemma", "cycle on in-range positions = rot on the array seen as a function (sequential moves, repeated positions allowed)"),
+            ("SafeC.Sort.trinkle_spec", "SafeC.Proofs.SortTrinkle", "lemma", "trinkle on a forest of heaps with ascending roots from the second tree on (first tree trusted or with heap-ordered subtrees): all trees heaps, all roots ascending, only [0, head] rearranged"),
+            ("SafeC.Sort.RootsFin.roots", "SafeC.Proofs.SortSorted", "lemma", "build phase: when the tree at head is final (lp[pshift-1] >= high-head) every tree to its left was final when decided, so the roots left of it ascend"),
+            ("SafeC.Sort.mainStep_sorted", "SafeC.Proofs.SortSorted", "lemma", "one round of the main loop preserves: subtrees of the smallest tree heaps, all other trees heaps, roots of final trees ascending"),
+            ("SafeC.Sort.dismantleStep_sorted", "SafeC.Proofs.SortSorted", "lemma", "one round of the dismantling loop preserves heaps + ascending roots and puts the maximum of [0, head] at head for good"),
+            ("SafeC.Sort.smooth_sorted", "SafeC.Proofs.SortSorted", "lemma", "whole smoothsort, consistent comparator: result ordered"),
+            ("SafeC.Sort.Cyc.chunkGo_rep2", "SafeC.Proofs.SortCycle", "lemma", "one chunk of the byte-level cycle rotates exactly the byte columns [off, off+l) of every listed element, repeated positions included"),
+            ("SafeC.Sort.Cyc.cycleBytes_rep2", "SafeC.Proofs.SortCycle", "lemma", "the while(width) loop of cycle rotates every byte column once (induction on the chunk count)")],
     "C11": [("SafeC.Printf.ntoaDigits_eq", "SafeC.Proofs.PrintfDigits", "lemma", "the do-while digit loop from any fill state with room and fuel: appends the digits of the value, least significant first (induction on the fuel)"),
             ("SafeC.Printf.revDigits_length_64", "SafeC.Proofs.PrintfDigits", "lemma", "a 64-bit value has at most 22 digits in a base >= 8: the 32-byte buffer never cuts the digits"),
             ("SafeC.Printf.revDigits_eq_reverse", "SafeC.Proofs.PrintfDigits", "lemma", "least-significant-first digits = reverse of Spec.digits"),
